@@ -94,10 +94,26 @@ def lifeDrvStep (s : Life) (args : List String) : Life × String :=
   | ["wait"] => let (s', o) := lifeStep s .wait; (s', showLifeOut o)
   | "run" :: fail :: _ =>
     -- some intervals elapse; with `fail` the next keep-alive fails
-    if fail = "fail" then
+    if fail = "slow" then
+      -- a slow pool does not stretch the period: one keep-alive per tick (`one_keepalive_per_tick`)
+      (s, if s.loops == 1 then "loops=1 cadence=ok" else s!"loops={s.loops}")
+    else if fail = "fail" then
       let (s', _) := lifeStep s (.tick false)
       (s', s!"loops={s.loops}")
     else (s, s!"loops={s.loops}")
   | _ => (s, "bad-op")
+
+/-- component `ethrpc`: what a geth node's RPC endpoint receives for each instruction of the agent -/
+def ethRpcStep (args : List String) : String :=
+  match args with
+  | [op, arg] =>
+    let a := untok (encodeNodeID (tok arg))
+    match op with
+    | "connect" => "sent admin_addPeer " ++ a
+    | "disconnect" => "sent admin_removePeer " ++ a
+    | "trust" => "sent admin_addTrustedPeer " ++ a
+    | "untrust" => "sent admin_removeTrustedPeer " ++ a
+    | _ => "bad-op"
+  | _ => "bad-op"
 
 end Vipnode.Drv
